@@ -365,6 +365,13 @@ R06.7 the only state shared between the output files of a run, the remote-templa
 			}
 		}
 	}
+	// mechanical re-check of the S2 site: the changed-flag of the config-template fixpoint is a commutative OR
+	// (set to true under 'value changed', never assigned otherwise inside the pass)
+	if cp := r.Pkg("config"); cp != nil {
+		if fd := FuncDecl(cp, "Config.ParseTemplates"); fd != nil {
+			subRules(c, "R06.1", "config.Config.ParseTemplates|changed-flag", "the pass over the templated values visits them in map order: ", func(sub *Ctx) { ruleFixpoint(sub, r, cp, fd) })
+		}
+	}
 	// mechanical re-check of the S3 sites
 	ruleImportsListing(c, r, "R06.1")
 	if fd := FuncDecl(r.Pkg("config"), "RootConfig.Initialize"); fd != nil {
